@@ -13,7 +13,7 @@ add("C01", "crash-isolated runtime exploration: Go runtime checks (panic via rec
     "Unbounded 'never loops forever' is restated as bounded progress (per-case watchdog 40 s, confirmed on an isolated re-run with 150 s). Context functions/Stringers are total by construction. Must*/Render* wrappers that are documented to panic are not exercised.")
 add("C02", "information-flow (taint) runtime monitor: uniquely marked context strings, output scanned for raw marker material; filter sweep plus random opt-out-free programs; repeated executions with swapped safe/tainted contexts",
     "Runtime exploration: every string leaf of a ~110-value context carries a marker made of < > & ' \"; all registered filters (minus declared opt-outs) are swept in 17 syntactic positions and random opt-out-free programs over the whole vocabulary (files, macros, inheritance, filter tag, array literals ...) are executed; the output is scanned for any raw special character that is not engine-originated. Held = no leak on the executions observed.",
-    "Template text and literals are generated free of the special characters; the only engine-originated markup accepted is the '<type Value>' placeholder. In programs using the filter tag (which post-processes rendered text and can mangle that placeholder) a lone < or > and raw & are not judged; quotes and angle brackets adjacent to a raw & still are.")
+    "Template text and literals are generated free of the special characters; the only engine-originated markup accepted is the '<type Value>' placeholder. In programs using the filter tag (which post-processes rendered text and can mangle that placeholder) < > & are not judged; raw quotes (which only the marker can contribute) still are.")
 add("C03", "runtime monitor with harness-registered probe tag/filter (invocation counters in parser, node and filter function), recording loader, and a sequential ban-set/frozen-flag model checked against call histories",
     "Runtime exploration: every registered tag/filter (from the hook) and counting probes are banned and then used through random routes (26 expression/filter-tag positions x nesting contexts x file-composition routes incl. lazy includes); compilation (or the lazy include's execution) must fail, probe counters and the loader log must show that the banned code never ran / its file was never fetched, programs without the banned name must render identically; random call histories over Ban*/From*/Render* on 1-2 sets are compared with a model of the ban set and the frozen flag through probe compiles. Held = no deviation on the programs and histories observed.",
     "Invocation counting is only sound for the harness probes (built-in escape/iriencode are called internally), so built-in targets are judged by the compile error only. The first creation of every history succeeds (freezing on a failing first compile is unspecified).")
